@@ -44,7 +44,7 @@ var reQuoted = regexp.MustCompile(`'[^']*'|"[^"]*"`)
 
 // "0789.5": digits after a leading 0 that include 8 or 9 after an octal digit, followed by a fraction or exponent
 var reLegacyDecimalFraction = regexp.MustCompile(`(^|[^0-9A-Za-z_$.])0[0-7]+[89][0-9]*([.eE][0-9])`)
-var reASIPostfix = regexp.MustCompile(`(\+\+|--)[ \t]*(?:/\*[^*]*\*/[ \t]*)*\r?\n\s*(?:/\*[^*]*\*/\s*)*\(`)
+var reASIPostfix = regexp.MustCompile(`(\+\+|--)[ \t]*(?:/\*[^*]*\*/[ \t]*)*\r?\n\s*(?:/\*[^*]*\*/\s*)*([(\[])`)
 var reExportStarAsEvalArgs = regexp.MustCompile(`export\s*\*\s*as\s+(arguments|eval)\b`)
 var reLetArrow = regexp.MustCompile(`(^|[;{}\s])(let|using)\s*=>`)
 var reAsyncAwaitArrow = regexp.MustCompile(`async\s+(await|\\u0061wait)\s*=>`)
@@ -97,9 +97,26 @@ func normErr(s string) string {
 
 var reAnnexBDup = regexp.MustCompile(`let (\w+)\s*=\s*function[\s\S]*?(?:,|\blet)\s*(\w+)\s*=\s*function`)
 
+var reBlockFunction = regexp.MustCompile(`\{\s*(?:async\s+)?function\b`)
+
+func c13ValidAs(pool *Pool, code, goal string) bool {
+	p2, err := pool.Parse(code, goal, 0)
+	return err == nil && !bothReject(p2)
+}
+
+var reAnnexBLet = regexp.MustCompile(`(?:\blet\s+|,\s*)(\w+)\s*=\s*function\b`)
+
 func annexBDup(out string) bool {
 	for _, m := range reAnnexBDup.FindAllStringSubmatch(out, -1) {
 		if m[1] == m[2] {
+			return true
+		}
+	}
+	// (the pairwise pattern above skips a pair when another converted function precedes it: count the names as well)
+	seen := map[string]int{}
+	for _, m := range reAnnexBLet.FindAllStringSubmatch(out, -1) {
+		seen[m[1]]++
+		if seen[m[1]] > 1 {
 			return true
 		}
 	}
@@ -336,7 +353,7 @@ func c13One(r *Run, pool *Pool, c c13Case, cfgSeed uint64, st *c13Stats) {
 					}
 				}
 				if reASIPostfix.MatchString(c.Src) {
-					s2 := reASIPostfix.ReplaceAllString(c.Src, "${1};\n(")
+					s2 := reASIPostfix.ReplaceAllString(c.Src, "${1};\n${2}")
 					r2, _ := transformSafe(s2, api.TransformOptions{Loader: api.LoaderJS})
 					if len(r2.Errors) == 0 {
 						sig = "reject:asi-after-postfix-update-before-paren"
@@ -386,6 +403,10 @@ func c13One(r *Run, pool *Pool, c c13Case, cfgSeed uint64, st *c13Stats) {
 				sig = "invalid-output-inherited:" + fmtClass + ":" + goal + ":" + normErr(pr.V8.Err)
 			} else if (strings.Contains(pr.V8.Err, "has already been declared") || strings.Contains(pr.Acorn.Err, "has already been declared")) && annexBDup(code) {
 				sig = "invalid-output:annexb-duplicate-block-function"
+			} else if goal == "module" && strings.Contains(pr.V8.Err, "has already been declared") && reBlockFunction.MatchString(c.Src) && c13ValidAs(pool, code, "script") {
+				// a file without import/export is compiled with script (Annex B) semantics: a block-level function is hoisted to a
+				// `var`, which clashes with a same-named top-level declaration only when the output is read as a module
+				sig = "invalid-output:annexb-hoisting-applied-in-module-goal"
 			} else if strings.Contains(pr.V8.Err, "Invalid destructuring assignment target") && reCommentParens.MatchString(code) {
 				sig = "invalid-output:comment-parenthesises-nested-destructuring-target"
 			} else if strings.Contains(pr.V8.Err, "eval or arguments") && reExportStarAsEvalArgs.MatchString(c.Src) {
@@ -483,7 +504,7 @@ func c13One(r *Run, pool *Pool, c c13Case, cfgSeed uint64, st *c13Stats) {
 				if err == nil && tc.ErrorA == "" && tc.ErrorB == "" {
 					atomic.AddInt64(&st.fixedPointChecked, 1)
 					if !tc.Equal {
-						r.Violation(fixedPointSigWith(tc, y),
+						r.Violation(fixedPointSigWith(tc, y+"\x00"+z),
 							fmt.Sprintf("T(T(x)) differs from T(x) beyond comments: x=%q T(x)=%q T(T(x))=%q", trunc(c.Src, 160), trunc(y, 160), trunc(z, 160)),
 							map[string]interface{}{"kind": "fixedpoint", "input": c, "once": y, "twice": z, "tokens_once": tc.A, "tokens_twice": tc.B})
 					}
@@ -493,7 +514,7 @@ func c13One(r *Run, pool *Pool, c c13Case, cfgSeed uint64, st *c13Stats) {
 					if err2 == nil && tc2.ErrorA == "" && tc2.ErrorB == "" {
 						atomic.AddInt64(&st.fixedPointChecked, 1)
 						if !tc2.Equal {
-							r.Violation(fixedPointSigWith(tc2, y),
+							r.Violation(fixedPointSigWith(tc2, y+"\x00"+z),
 								fmt.Sprintf("T(T(x)) differs from T(x) beyond comments: x=%q T(x)=%q T(T(x))=%q", trunc(c.Src, 160), trunc(y, 160), trunc(z, 160)),
 								map[string]interface{}{"kind": "fixedpoint", "input": c, "once": y, "twice": z})
 						}
